@@ -39,7 +39,21 @@ pub fn run(tier: Tier) -> i32 {
             let t0 = Instant::now();
             let cases = std::sync::atomic::AtomicU64::new(0);
             // besides setup . Sigma^<=d: the degenerate payloads (empty output, one literal, two literals)
-            let edge: Vec<Vec<Sym>> = vec![vec![], vec![Sym::L(0x41)], vec![Sym::L(0x41), Sym::L(0x42)], vec![Sym::L(0); 300]];
+            let mut edge: Vec<Vec<Sym>> = vec![vec![], vec![Sym::L(0x41)], vec![Sym::L(0x41), Sym::L(0x42)], vec![Sym::L(0); 300]];
+            // payloads whose output is longer than the 4096-byte dictionary of the header (the window wraps, incl. a match that
+            // ends exactly at the window end) and longer than 64 KiB
+            for it in super::corpus::valid_items(seed, true) {
+                if it.name == "wraps-4096-window+size" || it.name == "match-ends-at-window-end+size" {
+                    edge.push(it.prog.clone());
+                }
+            }
+            {
+                let mut big: Vec<Sym> = (0..200u32).map(|i| Sym::L((i * 13 + 7) as u8)).collect();
+                for k in 0..260u32 {
+                    big.push(Sym::M(1 + (k * 17) % 190, 273 - (k % 9)));
+                }
+                edge.push(big);
+            }
             let nedge = edge.len() as u64;
             par_for((total + nedge) * 2, |i| {
                 let (lc, lp, pb) = [(3u32, 0u32, 2u32), (0, 2, 0)][(i % 2) as usize];
@@ -52,7 +66,7 @@ pub fn run(tier: Tier) -> i32 {
                     prog
                 };
                 let e = enc::encode(lc, lp, pb, u64::MAX, &prog);
-                if e.bad.is_some() {
+                if e.bad.is_some() || (e.expect.len() > 4096 && prog.iter().any(|s| matches!(s, Sym::M(d, _) if *d > 4096))) {
                     return;
                 }
                 let n = e.expect.len() as u64;
@@ -290,6 +304,27 @@ pub fn run(tier: Tier) -> i32 {
                         ctx.nontriv(1);
                         if !o.v.is_err() {
                             ctx.violation(&case, &format!("{} + {} trailing byte(s) {}: Err", label, tr.len(), brief_bytes(tr)), &o, None);
+                        }
+                    }
+                }
+                // a hiccup of the source (one call fails with Other / Interrupted / WouldBlock / TimedOut) while the decoder
+                // looks for the end of the input cannot make trailing bytes acceptable: for every call index, still Err
+                if file.len() <= 400 {
+                    for tr in trs.iter().filter(|t| !t.is_empty()).take(2) {
+                        let mut input = file.clone();
+                        input.extend_from_slice(tr);
+                        let probe = run_case(&Case::Dec { fmt: *fmt, opts: Opts::default(), input: Hex(input.clone()), rd: Rd { cuts: vec![usize::MAX], ..Rd::default() }, sk: Sk::default() });
+                        for k in 0..probe.reads + 1 {
+                            for kind in 0..4u8 {
+                                let case = Case::Dec { fmt: *fmt, opts: Opts::default(), input: Hex(input.clone()), rd: Rd { cuts: vec![usize::MAX], fail_at: Some(k), fail_kind: kind, ..Rd::default() }, sk: Sk::default() };
+                                let o = run_case(&case);
+                                ctx.eval(1);
+                                ctx.nontriv(1);
+                                if !o.v.is_err() {
+                                    ctx.violation(&case, &format!("{} + {} trailing byte(s), source call #{} fails once (error kind {}): still Err", label, tr.len(), k, kind), &o, None);
+                                    return;
+                                }
+                            }
                         }
                     }
                 }
